@@ -12,6 +12,12 @@ import time
 import traceback
 
 sys.setrecursionlimit(10000)
+try:
+    import resource
+    _lim = 10 * 1024 ** 3
+    resource.setrlimit(resource.RLIMIT_AS, (_lim, _lim))   # a runaway evaluation must fail, not take the machine down
+except Exception:
+    pass
 
 
 def load(prop, tier, seed):
